@@ -1,0 +1,20 @@
+//go:build verif
+
+// Contracts for the govc verifier (see /verif/DESIGN.md). Comment-only: with the
+// build tag off this file is not part of the package, with it on it adds nothing.
+
+package bpv7
+
+// govc:func (*HopCountBlock).Increment property C06
+//@ assigns hcb.Count
+//@ ensures hcb.Limit == old(hcb.Limit)
+//@ ensures old(hcb.Count) < 255 ==> hcb.Count == old(hcb.Count) + 1
+//@ ensures result == (uint64(old(hcb.Count)) + 1 > uint64(hcb.Limit))
+
+// govc:func (*HopCountBlock).Decrement property C06
+//@ assigns hcb.Count
+//@ ensures old(hcb.Count) > 0 ==> hcb.Count == old(hcb.Count) - 1
+
+// govc:func HopCountBlock.IsExceeded property C06 C02
+//@ assigns nothing
+//@ ensures result == (hcb.Count > hcb.Limit)
